@@ -1,6 +1,8 @@
 """DEP — dependence sets of shortcuts (DESIGN §3.10) and the other structural facts of C07."""
 import re
 
+import sympy as sp
+
 from .. import astq, norm
 from ..astq import sc
 from ..tu import AnalysisBroken
@@ -167,8 +169,44 @@ def culling(P, rep, rule="DEP.culling"):
                                   key="%s|%s|cutoff" % (rule, cls),
                                   witness="vertical %s with min depth 150 km, length 200 km, thickness 100 km: points between 300 and 350 km depth" % keyfield)
                 else:
-                    # the bound must be additive in the start depth: starting_depth + length + thickness
-                    rep.ok(rule, "%s: depth cut-off `%s` depends on min depth, segment lengths and thicknesses" % (keyfield, txt), F.nloc(c), F.qn)
+                    # the deepest point of the feature can lie length + thickness below its start (a segment table that goes straight
+                    # down and then flattens): the cut-off must be at least starting_depth + L + T for all L, T >= 0. Decided on the
+                    # extracted formula: a counterexample among sample values refutes it.
+                    S0, L_, T_ = sp.symbols("S0 L T", nonnegative=True)
+
+                    def hk(nd):
+                        if nd.get("k") == "MemberExpr" and astq.is_this_field(P, nd):
+                            nm = nd.get("n", "")
+                            if nm == "starting_depth":
+                                return S0
+                            if "total" in nm and "length" in nm:
+                                return L_
+                            if "thickness" in nm:
+                                return T_
+                        if nd.get("k") == "CallExpr" and P.d(nd.get("callee")).get("qn") in ("std::hypot", "hypot") and len(nd["c"]) == 3:
+                            return sp.sqrt(symb(nd["c"][1]) ** 2 + symb(nd["c"][2]) ** 2)
+                        return None
+                    symb = norm.Sym(P, F, inline_locals=True, hook=hk)
+                    try:
+                        slack = sp.simplify(symb(bound) - S0 - L_ - T_)
+                    except Exception:
+                        slack = None
+                    refuted = None
+                    if slack is not None and not (slack.free_symbols - {S0, L_, T_}):
+                        for sv, lv, tv in ((0, 3, 4), (1e5, 4e5, 1e5), (0, 1, 0), (0, 0, 1), (2e5, 1e6, 2e5)):
+                            try:
+                                val = float(slack.subs({S0: sv, L_: lv, T_: tv}))
+                            except Exception:
+                                val = 0.0
+                            if val < -1e-9 * (1 + sv + lv + tv):
+                                refuted = (sv, lv, tv, val)
+                                break
+                    if refuted is not None:
+                        rep.violation(rule, "%s: depth cut-off `%s` lies %.6g above min depth + length + thickness for (min depth, L, T) = %s" % (keyfield, txt, -refuted[3], refuted[:3]),
+                                      F.nloc(c), F.qn, txt, "a feature whose segments go down and then flatten reaches min depth + length + thickness: points of it are cut off",
+                                      key="%s|%s|cutoff-value" % (rule, cls), witness="a slab with a vertical first segment and a horizontal second one, point near its lower edge")
+                    else:
+                        rep.ok(rule, "%s: depth cut-off `%s` depends on min depth, segment lengths and thicknesses and is >= min depth + L + T" % (keyfield, txt), F.nloc(c), F.qn)
             elif "point_inside" in norm.render(P, c):
                 n += 1
                 atoms = deps.get("surface_bounding_box", set())
@@ -185,7 +223,6 @@ def culling(P, rep, rule="DEP.culling"):
                     rep.ok(rule, "%s: bounding box depends on coordinates, segment lengths/thicknesses and the radius" % keyfield, F.nloc(c), F.qn)
         # spherical buffer: an angle that must exceed (L+T)/R_surface, the angle the same arc subtends AT the surface --
         # the slab lies below the surface, where it subtends a strictly larger angle
-        import sympy as sp
         PF = P.func(cls + "::parse_entries")
         bufs = [x for x in PF.walk() if x.get("k") == "VarDecl" and re.match(r"buffer_around_\w+_spherical$", x.get("n", "")) and x.get("c")]
         if len(bufs) != 1:
@@ -447,6 +484,9 @@ def surface_fallback(P, rep, rule="G3.surface"):
         if any(x.get("k") in ("BreakStmt",) for x in F.walk(body)):
             ok = False
             why = "the full scan can be left by break"
+        if any(x.get("k") in ("ContinueStmt",) for x in F.walk(body)):
+            ok = False
+            why = "the full scan skips some triangles (continue): it no longer tests every triangle against the point and its alias"
     if ok:
         rep.ok(rule, "local_value: full scan over tree.get_nodes() (point and alias) precedes the throw", F.nloc(prev), F.qn)
     else:
